@@ -68,4 +68,11 @@ static inline int64_t replay_get(const char *name, int idx) {
 #define PROPHECY(c) ((void)0)
 #endif
 #define U8MAX 255u
+/* slicer rule R-std: type-generic stand-ins for overloaded std:: helpers */
+#include <math.h>
+#include <stdlib.h>
+#define STD_ABS(x) _Generic((x), float: fabsf, double: fabs, long double: fabsl, int: abs, long: labs, long long: llabs, short: abs, signed char: abs)(x)
+#define STD_MIN(a, b) ((b) < (a) ? (b) : (a))
+#define STD_MAX(a, b) ((a) < (b) ? (b) : (a))
+#define STD_SWAP(a, b) do { __typeof__(a) std_swap_tmp = (a); (a) = (b); (b) = std_swap_tmp; } while (0)
 #endif
